@@ -4,9 +4,17 @@
 // nesting, each sub-app with/without its own ErrorHandler, root with default/custom handler,
 // with/without a root catch-all route, nested mount done before/after the parent is mounted,
 // DefaultCtx funnel / CustomCtx funnel)
+// + DEEP mount trees: a chain root -> m0 -> m1 -> m2 (two nesting levels below a mount) over the small
+// alphabet deepAlpha (thorough: plus one more mount hanging off the root, m0 or m1), built top-down
+// (every parent mounted before its child: the descendants are registered by the start-up pass
+// appendSubAppLists) and bottom-up (mount() copies the full paths eagerly; thorough: every order of
+// the Use calls of the chain)
+// x request paths (incl. every "partial" prefix: the relative prefixes of a mount's ancestor chain
+// with some ancestors dropped, e.g. /b/c and /a/c and /c for /a/b/c) x URL forms x error sources
 // x request paths x URL forms x error sources x EVERY iteration order of the map range in
 // App.ErrorHandler (owned through the overlay: verifrt.MapOrder + an odometer-driven chooser)
-// x <=1 non-default choice in the map ranges of mount.go.
+// (all n! orders while a request consults <=3 owned choices, i.e. <=4 appList entries; beyond that
+// every order with <=2 non-default picks) x <=1 non-default choice in the map ranges of mount.go.
 //
 // The chooser is process-global, so the product is sharded over worker PROCESSES
 // (core.SpawnWorkers), each strictly sequential.
@@ -39,6 +47,16 @@ var prefixes = []string{"/api", "/api-v2", "/api/v1", "/ap", "/a"}
 // relative prefixes of nested mounts: the same alphabet plus "/v1" (so that /api + /v1 collides with a direct /api/v1 mount)
 var nestedRel = []string{"/api", "/api-v2", "/api/v1", "/ap", "/a", "/v1"}
 
+// prefixes of deep mount trees (root-level and relative alike): /a is a string prefix of /api, /v1 is unrelated
+var deepAlpha = []string{"/a", "/api", "/v1"}
+
+// maxFullOrderChoices: a request that consults more owned map-range choices than this (appList with
+// more than 4 entries) is explored under every order with <= maxOrderDeviations non-default picks only.
+const (
+	maxFullOrderChoices = 3
+	maxOrderDeviations  = 2
+)
+
 const (
 	srcInner  = iota // route handler of the innermost matching app writes a partial response, then returns *fiber.Error 422
 	srcRootMW        // root middleware registered before every mount returns *fiber.Error 403
@@ -62,7 +80,7 @@ const (
 var formNames = [nForm]string{"origin", "query", "absolute-uri"}
 
 type mount struct {
-	Parent int    `json:"parent"` // -1 = mounted into the root app, else index of the parent mount
+	Parent int    `json:"parent"` // -1 = mounted into the root app, else index of the parent mount (which may itself be nested)
 	Rel    string `json:"prefix"` // prefix given to Use()
 	Own    bool   `json:"own_error_handler"`
 	Full   string `json:"full_prefix"`
@@ -73,7 +91,9 @@ type program struct {
 	NestLate  bool    `json:"nested_mount_after_parent_mounted"`
 	RootOwn   bool    `json:"root_has_custom_error_handler"`
 	RootCatch bool    `json:"root_catch_all_route"`
-	CustomCtx bool    `json:"custom_ctx_funnel"` // app.NewCtxFunc(...): requests go through customRequestHandler/nextCustom
+	CustomCtx bool    `json:"custom_ctx_funnel"`        // app.NewCtxFunc(...): requests go through customRequestHandler/nextCustom
+	Deep      bool    `json:"deep_tree,omitempty"`      // a mount two nesting levels below a root-level mount exists
+	Order     []int   `json:"use_call_order,omitempty"` // explicit order of the Use calls (mount indices); nil: bottom-up / top-down per NestLate
 }
 
 type myCtx struct{ fiber.DefaultCtx }
@@ -114,31 +134,80 @@ func (p *program) text() string {
 }
 
 // mountOrder is the order in which Use(prefix, sub) calls are made.
+// NestLate (top-down): by depth, every parent is mounted before anything is mounted into it.
+// otherwise (bottom-up): post-order, every sub-app is complete before it is mounted.
 func (p *program) mountOrder() []int {
+	if p.Order != nil {
+		return p.Order
+	}
 	var out []int
 	if p.NestLate {
-		for i, m := range p.Mounts {
-			if m.Parent < 0 {
-				out = append(out, i)
-			}
-		}
-		for i, m := range p.Mounts {
-			if m.Parent >= 0 {
-				out = append(out, i)
+		for d := 0; len(out) < len(p.Mounts); d++ {
+			for i := range p.Mounts {
+				if p.depth(i) == d {
+					out = append(out, i)
+				}
 			}
 		}
 		return out
 	}
-	for i, m := range p.Mounts {
-		if m.Parent >= 0 {
-			continue
-		}
-		for j, c := range p.Mounts {
-			if c.Parent == i {
-				out = append(out, j)
+	var post func(parent int)
+	post = func(parent int) {
+		for i, m := range p.Mounts {
+			if m.Parent == parent {
+				post(i)
+				out = append(out, i)
 			}
 		}
-		out = append(out, i)
+	}
+	post(-1)
+	return out
+}
+
+func (p *program) orderKind() string {
+	switch {
+	case !hasNested(p.Mounts):
+		return "flat"
+	case p.Order != nil:
+		return "mixed"
+	case p.NestLate:
+		return "top-down (parents mounted first; descendants registered by the start-up pass)"
+	}
+	return "bottom-up (sub-apps complete before being mounted)"
+}
+
+// depth of mount i below the root application (0 = mounted into the root).
+func (p *program) depth(i int) int {
+	d := 0
+	for p.Mounts[i].Parent >= 0 {
+		i = p.Mounts[i].Parent
+		d++
+	}
+	return d
+}
+
+// chain returns the relative prefixes from the root down to mount i.
+func (p *program) chain(i int) []string {
+	var c []string
+	for ; i >= 0; i = p.Mounts[i].Parent {
+		c = append([]string{p.Mounts[i].Rel}, c...)
+	}
+	return c
+}
+
+// partialPrefixes: the prefixes obtained from the ancestor chain of mount i by dropping at least one
+// and not all of its elements (a sub-app registered under such a prefix lost part of its mount path).
+func (p *program) partialPrefixes(i int) []string {
+	c := p.chain(i)
+	var out []string
+	for mask := 1; mask < 1<<len(c)-1; mask++ {
+		s := ""
+		for k := range c {
+			if mask&(1<<k) != 0 {
+				s += c[k]
+			}
+		}
+		out = append(out, s)
 	}
 	return out
 }
@@ -203,6 +272,63 @@ func structures(maxMounts int) [][]mount {
 	return out
 }
 
+// deepStructures enumerates the mount trees with a chain root -> m0 -> m1 -> m2 over deepAlpha, plus
+// (extra > 0) one more mount hanging off the root, m0 or m1 with a relative prefix its siblings do not use.
+func deepStructures(extra int) [][]mount {
+	var out [][]mount
+	owns := []bool{false, true}
+	for _, r0 := range deepAlpha {
+		for _, r1 := range deepAlpha {
+			for _, r2 := range deepAlpha {
+				for own := 0; own < 8; own++ {
+					ch := []mount{
+						{-1, r0, own&1 != 0, r0},
+						{0, r1, own&2 != 0, r0 + r1},
+						{1, r2, own&4 != 0, r0 + r1 + r2},
+					}
+					out = append(out, ch)
+					if extra == 0 {
+						continue
+					}
+					for parent := -1; parent <= 1; parent++ {
+						base, sibling := "", ch[parent+1].Rel
+						if parent >= 0 {
+							base = ch[parent].Full
+						}
+						for _, rx := range deepAlpha {
+							if rx == sibling {
+								continue
+							}
+							for _, o := range owns {
+								out = append(out, append(ch[:3:3], mount{parent, rx, o, base + rx}))
+							}
+						}
+					}
+				}
+			}
+		}
+	}
+	return out
+}
+
+func permutations(n int) [][]int {
+	var out [][]int
+	var rec func(cur []int, used int)
+	rec = func(cur []int, used int) {
+		if len(cur) == n {
+			out = append(out, append([]int(nil), cur...))
+			return
+		}
+		for i := 0; i < n; i++ {
+			if used&(1<<i) == 0 {
+				rec(append(cur, i), used|1<<i)
+			}
+		}
+	}
+	rec(nil, 0)
+	return out
+}
+
 func programs(maxMounts int, quick bool) []program {
 	var out []program
 	for _, ms := range structures(maxMounts) {
@@ -213,9 +339,38 @@ func programs(maxMounts int, quick bool) []program {
 		for _, late := range lates {
 			for _, rootOwn := range []bool{false, true} {
 				for _, catch := range []bool{false, true} {
-					out = append(out, program{ms, late, rootOwn, catch, false})
+					out = append(out, program{Mounts: ms, NestLate: late, RootOwn: rootOwn, RootCatch: catch})
 					if len(ms) <= 2 || (!quick && !hasNested(ms)) {
-						out = append(out, program{ms, late, rootOwn, catch, true})
+						out = append(out, program{Mounts: ms, NestLate: late, RootOwn: rootOwn, RootCatch: catch, CustomCtx: true})
+					}
+				}
+			}
+		}
+	}
+	// deep trees: both construction orders (thorough: every order of the chain's Use calls, and 4-mount trees)
+	extra := 1
+	if quick {
+		extra = 0
+	}
+	for _, ms := range deepStructures(extra) {
+		type ord struct {
+			late  bool
+			order []int
+		}
+		ords := []ord{{false, nil}, {true, nil}}
+		if !quick && len(ms) == 3 {
+			for _, pm := range permutations(3) {
+				if !(pm[0] == 0 && pm[1] == 1) && !(pm[0] == 2 && pm[1] == 1) { // top-down and bottom-up are there already
+					ords = append(ords, ord{false, pm})
+				}
+			}
+		}
+		for _, o := range ords {
+			for _, rootOwn := range []bool{false, true} {
+				for _, catch := range []bool{false, true} {
+					out = append(out, program{Mounts: ms, NestLate: o.late, RootOwn: rootOwn, RootCatch: catch, Deep: true, Order: o.order})
+					if !quick && len(ms) == 3 && o.order == nil {
+						out = append(out, program{Mounts: ms, NestLate: o.late, RootOwn: rootOwn, RootCatch: catch, CustomCtx: true, Deep: true})
 					}
 				}
 			}
@@ -230,9 +385,19 @@ func requestPaths(p *program) []string {
 		set[q] = true
 		set[q+"/x"] = true
 	}
-	for _, m := range p.Mounts {
+	for i, m := range p.Mounts {
 		set[m.Full] = true
 		set[m.Full+"/x"] = true
+		if m.Parent >= 0 {
+			// bogus prefixes: the mount's chain of relative prefixes with ancestors dropped
+			for _, q := range p.partialPrefixes(i) {
+				set[q] = true
+				set[q+"/x"] = true
+			}
+		}
+		if p.Deep {
+			set[m.Full+"x/x"] = true // not on a segment boundary of the real prefix
+		}
 	}
 	out := make([]string, 0, len(set))
 	for k := range set {
@@ -304,20 +469,21 @@ func routedGET(p *program, path string) bool {
 // instrumented execution
 
 type state struct {
-	src     int
-	got     []int // ids of injected error handlers in call order
-	gotErr  error // error received by the last injected handler
-	raised  error // error object returned by a harness handler (nil: the framework raised it)
-	raiser  int   // id of the app whose handler raised (-1 none, 0 root mw / root catch-all)
-	reqDig  []int // odometer digits for map ranges during the request
-	reqRad  []int // radices observed
-	reqPos  int
-	phase   int // 0 build, 1 request
-	bldPos  int
-	bldRad  []int
-	devK    int // build-phase call index that deviates (-1 none)
-	devAlt  int
-	chCalls int64
+	src           int
+	got           []int // ids of injected error handlers in call order
+	gotErr        error // error received by the last injected handler
+	raised        error // error object returned by a harness handler (nil: the framework raised it)
+	raiser        int   // id of the app whose handler raised (-1 none, 0 root mw / root catch-all)
+	reqDig        []int // odometer digits for map ranges during the request
+	reqRad        []int // radices observed
+	reqPos        int
+	phase         int // 0 build, 1 request
+	bldPos        int
+	bldRad        []int
+	devK          int // build-phase call index that deviates (-1 none)
+	devAlt        int
+	chCalls       int64
+	ordersSkipped int64 // orders not run because of the deviation cap
 }
 
 var st state
@@ -347,8 +513,30 @@ func chooser(kind string, n int, costly bool, label string) int {
 	return st.reqDig[i]
 }
 
-// nextOrder advances the odometer; false when all orders were visited.
+// nextOrder advances the odometer; false when all orders were visited. When the last run consulted more
+// than maxFullOrderChoices owned choices only digit vectors with <= maxOrderDeviations non-default picks
+// are visited (a vector with more is skipped together with all its extensions).
 func nextOrder() bool {
+	capped := st.reqPos > maxFullOrderChoices
+	for advanceOrder() {
+		if !capped {
+			return true
+		}
+		nz := 0
+		for _, d := range st.reqDig {
+			if d != 0 {
+				nz++
+			}
+		}
+		if nz <= maxOrderDeviations {
+			return true
+		}
+		st.ordersSkipped++
+	}
+	return false
+}
+
+func advanceOrder() bool {
 	// positions beyond reqPos were not consulted in the last run
 	n := st.reqPos
 	if n > len(st.reqDig) {
@@ -545,6 +733,11 @@ func rel(p *program, g int, path string, want []int) string {
 	case strings.HasPrefix(path, m.Full):
 		return "non-boundary-string-prefix-mount"
 	}
+	for _, q := range p.partialPrefixes(g - 1) {
+		if contains(q, path) {
+			return "mount-whose-prefix-lost-ancestor-segments" // the path is under the mount's relative prefixes with ancestors dropped
+		}
+	}
 	return "unrelated-mount"
 }
 
@@ -646,6 +839,7 @@ func main() {
 		l.P.Outcomes[fmt.Sprintf("src=%s delivered-to=%s status=%d", srcNames[k.src], k.rel, k.status)] += n
 	}
 	l.Add("chooser_calls", st.chCalls)
+	l.Add("orders_skipped_by_deviation_cap", st.ordersSkipped)
 	r.Merge(l.P)
 	pprof.StopCPUProfile()
 	r.Finish(core.Evidence{})
@@ -654,7 +848,7 @@ func main() {
 // tier policy: which parts of the product a tier enumerates.
 type policy struct {
 	forms      func(p *program) int  // number of URL forms
-	devOrders  bool                  // all ErrorHandler orders also under mount.go deviations
+	devOrders  func(p *program) bool // all ErrorHandler orders also under mount.go deviations
 	deviations func(p *program) bool // explore mount.go deviations for this program
 }
 
@@ -667,11 +861,16 @@ func tierPolicy(r *core.Run) policy {
 				}
 				return 1
 			},
-			devOrders:  false,
-			deviations: func(p *program) bool { return len(p.Mounts) <= 2 },
+			devOrders:  func(*program) bool { return false },
+			deviations: func(p *program) bool { return len(p.Mounts) <= 2 || p.Deep },
 		}
 	}
-	return policy{forms: func(*program) int { return nForm }, devOrders: true, deviations: func(*program) bool { return true }}
+	return policy{forms: func(p *program) int {
+		if p.Deep && len(p.Mounts) > 3 {
+			return 1
+		}
+		return nForm
+	}, devOrders: func(p *program) bool { return !p.Deep }, deviations: func(*program) bool { return true }}
 }
 
 func runProgram(r *core.Run, l *core.Local, p *program, pi int, fctx *fasthttp.RequestCtx, outs map[outKey]int64) {
@@ -747,6 +946,9 @@ func runProgram(r *core.Run, l *core.Local, p *program, pi int, fctx *fasthttp.R
 						if st.reqPos > 0 {
 							l.Add("evaluations_with_owned_map_range", 1)
 						}
+						if st.reqPos > maxFullOrderChoices {
+							l.Add("evaluations_under_capped_orders", 1)
+						}
 						if !allOrders || !nextOrder() {
 							break
 						}
@@ -766,13 +968,19 @@ func runProgram(r *core.Run, l *core.Local, p *program, pi int, fctx *fasthttp.R
 	bldRad := append([]int(nil), st.bldRad...)
 	runAll(h, [2]int{-1, 0}, true, nf)
 	l.Add("builds", 1)
+	if p.Deep {
+		l.Add("deep_programs", 1)
+		if p.NestLate && p.Order == nil {
+			l.Add("deep_programs_top_down", 1)
+		}
+	}
 	// <=1 non-default choice in the mount.go map ranges
 	if pol.deviations(p) {
 		for k, n := range bldRad {
 			for alt := 1; alt < n; alt++ {
 				st.devK, st.devAlt = k, alt
 				h := build(p)
-				runAll(h, [2]int{k, alt}, pol.devOrders, 1) // URL form is orthogonal to the mount.go loops: origin-form only
+				runAll(h, [2]int{k, alt}, pol.devOrders(p), 1) // URL form is orthogonal to the mount.go loops: origin-form only
 				l.Add("builds", 1)
 				l.Add("builds_with_mount_go_deviation", 1)
 			}
@@ -788,13 +996,31 @@ func runProgram(r *core.Run, l *core.Local, p *program, pi int, fctx *fasthttp.R
 				competing++
 			}
 		}
+		partial := false // the path lies under some mount's prefix with ancestors dropped
+		for mi, m := range p.Mounts {
+			if m.Parent < 0 {
+				continue
+			}
+			for _, q := range p.partialPrefixes(mi) {
+				partial = partial || contains(q, path)
+			}
+		}
 		for f := 0; f < nf; f++ {
 			for s := 0; s < nSrc; s++ {
 				cell := &cells[(i*nf+f)*nSrc+s]
 				l.Add("evaluations", int64(cell.evals))
 				l.Add("cases", 1)
-				if competing >= 1 {
+				if competing >= 1 || partial {
 					l.Add("nontrivial", int64(cell.evals))
+				}
+				if p.Deep {
+					l.Add("evaluations_deep_trees", int64(cell.evals))
+					if contains(p.Mounts[2].Full, path) {
+						l.Add("evaluations_deep_path_under_innermost_mount", int64(cell.evals))
+					}
+				}
+				if partial && competing == 0 {
+					l.Add("evaluations_path_under_partial_prefix_outside_every_mount", int64(cell.evals))
 				}
 				if competing >= 2 {
 					l.Add("evaluations_with_two_or_more_string_prefix_mounts", int64(cell.evals))
@@ -804,8 +1030,8 @@ func runProgram(r *core.Run, l *core.Local, p *program, pi int, fctx *fasthttp.R
 					l.Add("unspecified_skipped", 1) // two apps mounted at the very same full prefix: identity of the winner not judged
 				}
 				cs := map[string]any{"program": p.text(), "mounts": p.Mounts, "request": map[string]any{"path": path, "url_form": formNames[f], "method": map[bool]string{true: "POST", false: "GET"}[s == srcFW405]},
-					"error_source": srcNames[s], "expected_handler": wantText(want), "handlerless_mounts_that_are_string_prefixes_of_the_path": shadowers(p, path, want)}
-				if pi%211 == 0 && i == len(paths)/2 && f == 0 && s == pi%nSrc {
+					"error_source": srcNames[s], "construction_order": p.orderKind(), "expected_handler": wantText(want), "handlerless_mounts_that_are_string_prefixes_of_the_path": shadowers(p, path, want)}
+				if (pi%211 == 0 || (p.Deep && pi%499 == 0)) && i == len(paths)/2 && f == 0 && s == pi%nSrc {
 					l.Sample(map[string]any{"case": cs, "orders_explored": cell.evals, "observed": cell.seen[0].o.view()})
 				}
 				for k := range cell.seen {
@@ -1002,9 +1228,15 @@ func finish(r *core.Run, progs []program, maxMounts int) {
 	if c["evaluations_with_two_or_more_string_prefix_mounts"] == 0 {
 		core.Fatal("vacuous: no evaluation had two competing mount prefixes")
 	}
-	pol := "thorough: CustomCtx funnel for programs with <=2 mounts and for 3 sibling mounts; 3 URL forms for every program under the default mount.go order; under each single mount.go deviation: origin-form, every App.ErrorHandler order"
+	if c["deep_programs_top_down"] == 0 || c["evaluations_deep_path_under_innermost_mount"] == 0 || c["evaluations_path_under_partial_prefix_outside_every_mount"] == 0 {
+		core.Fatal("vacuous: deep mount trees / partial-prefix paths were not exercised")
+	}
+	if !r.Quick() && c["evaluations_under_capped_orders"] == 0 {
+		core.Fatal("vacuous: no request consulted more than %d owned choices (5-entry appList expected in thorough)", maxFullOrderChoices)
+	}
+	pol := "thorough: CustomCtx funnel for programs with <=2 mounts and for 3 sibling mounts; 3 URL forms for every program (4-mount deep trees: origin-form) under the default mount.go order; under each single mount.go deviation: origin-form, every App.ErrorHandler order; deep trees: chain of 3 under every order of its Use calls and both funnels, 4-mount deep trees (chain + one mount off the root, m0 or m1) top-down and bottom-up, mount.go deviations of deep trees evaluated under the default ErrorHandler order"
 	if r.Quick() {
-		pol = "quick: CustomCtx funnel and nested-Use-after-parent-mounted only for programs with <=2 mounts; 3 URL forms for programs with <=2 mounts, origin-form only for 3 mounts; mount.go deviations for programs with <=2 mounts, evaluated under the default ErrorHandler order"
+		pol = "quick: CustomCtx funnel and nested-Use-after-parent-mounted only for programs with <=2 mounts; 3 URL forms for programs with <=2 mounts, origin-form only for 3 mounts; mount.go deviations for programs with <=2 mounts, and for deep trees, evaluated under the default ErrorHandler order; deep trees: the chain of 3 only, top-down and bottom-up, DefaultCtx funnel, origin-form"
 	}
 	r.Finish(core.Evidence{
 		Level:      "exploration",
@@ -1012,9 +1244,11 @@ func finish(r *core.Run, progs []program, maxMounts int) {
 		Coverage: map[string]any{
 			"evaluations":         c["evaluations"],
 			"distinct_nontrivial": c["nontrivial"],
-			"rule": fmt.Sprintf("full product: %d programs (every set of <=%d mounts over root prefixes %v, children of one mount with relative prefixes %v, each sub-app with/without own ErrorHandler, nested Use before/after the parent is mounted, root with default/custom handler, with/without root catch-all, DefaultCtx funnel / CustomCtx funnel) x request paths {each alphabet prefix, each full mount prefix, each +\"/x\", /apix, /other} x URL forms %v x %d error sources %v x every permutation of the appList range in App.ErrorHandler (chooser driven by an odometer; n! orders for n<=4 map entries) x {default, each single non-default choice} in the map ranges of mount.go; one evaluation = one request under one iteration order; non-trivial = at least one mount prefix is a string prefix of the request path (the selection loop has something to decide). %s",
-				len(progs), maxMounts, prefixes, nestedRel, formNames, nSrc, srcNames, pol),
-			"bounds": map[string]any{"max_mounts": maxMounts, "nesting_depth": 1, "programs": len(progs), "max_applist_entries": maxMounts + 1, "max_orders_per_request": 24, "mount_go_deviations_per_build": 1},
+			"rule": fmt.Sprintf("full product: %d programs (every set of <=%d mounts over root prefixes %v, children of one mount with relative prefixes %v, each sub-app with/without own ErrorHandler, nested Use before/after the parent is mounted, root with default/custom handler, with/without root catch-all, DefaultCtx funnel / CustomCtx funnel; plus DEEP trees: every chain root->m0->m1->m2 with prefixes from %v (two nesting levels below a mount; thorough: plus one more mount off the root, m0 or m1), built top-down (parents mounted first, descendants left to the start-up pass appendSubAppLists) and bottom-up (thorough: every order of the chain's Use calls)) x request paths {each alphabet prefix, each full mount prefix, each PARTIAL prefix of a nested mount = its chain of relative prefixes with some ancestors dropped (where a sub-app registered under a truncated path would answer), each +\"/x\", /apix, /other; deep trees also full prefix+\"x/x\"} x URL forms %v x %d error sources %v x every permutation of the appList range in App.ErrorHandler (chooser driven by an odometer; all n! orders while a request consults <=%d owned choices = n<=4 map entries; with 5 entries (thorough 4-mount deep trees) the 46 of 120 orders with <=%d non-default picks, which still realise every relative order of any three entries) x {default, each single non-default choice} in the map ranges of mount.go; one evaluation = one request under one iteration order; non-trivial = at least one mount prefix is a string prefix of the request path (the selection loop has something to decide) or the path lies under a partial prefix of a nested mount (the scope clause has something to refute). %s",
+				len(progs), maxMounts, prefixes, nestedRel, deepAlpha, formNames, nSrc, srcNames, maxFullOrderChoices, maxOrderDeviations, pol),
+			"bounds": map[string]any{"max_mounts": maxMounts, "max_mounts_deep_trees": map[bool]int{true: 3, false: 4}[r.Quick()], "nesting_depth": 2, "programs": len(progs), "deep_programs": c["deep_programs"],
+				"max_applist_entries": map[bool]int{true: 4, false: 5}[r.Quick()], "all_orders_up_to_applist_entries": maxFullOrderChoices + 1, "max_order_deviations_beyond": maxOrderDeviations,
+				"max_orders_per_request": map[bool]int{true: 24, false: 46}[r.Quick()], "orders_skipped_by_deviation_cap": c["orders_skipped_by_deviation_cap"], "mount_go_deviations_per_build": 1},
 		},
 		Assumptions: []string{
 			"handler-level drive (app.Handler() on a fake connection); both funnels (defaultRequestHandler and customRequestHandler via app.NewCtxFunc) are driven",
